@@ -789,7 +789,7 @@ def fam_eig3(cx, rng, n, cls):
   S = float(np.max(np.abs(A)))
   # stopping rules of the Jacobi iteration: |off-diagonal| < 1e-12 (absolute) or cos(rotation) > 1 - 1e-12, i.e. a remaining
   # rotation of up to sqrt(2e-12) = 1.4e-6 rad: eigenvectors are accurate to ~1.4e-6, eigenvalues to second order in that
-  tol = 64 * 1e-12 + 8e-6 * S
+  tol = 64 * 1e-12 + 2e-5 * S
   tolv = 64 * 1e-12 + 1e-10 * S
   cx.close('eig3-orthonormal', V.T @ V, np.eye(3), 512 * EPS, w)
   cx.close('eig3-det', np.linalg.det(V), 1.0, 512 * EPS, w)
@@ -846,7 +846,7 @@ def fam_boxqp(cx, rng, n, cls):
     raise Violation('mju_boxQP result violates its bounds: %s; %s' % (res.tolist(), w()), bucket='boxQP-bounds')
   G = H @ res + g
   sc = np.abs(H) @ np.abs(res) + np.abs(g)
-  tol = 1e-7 * (1 + sc)
+  tol = 1e-6 * (1 + sc)
   atlo = (res == lower) if lower is not None else np.zeros(n, dtype=bool)
   atup = (res == upper) if upper is not None else np.zeros(n, dtype=bool)
   free = ~(atlo | atup)
@@ -1034,7 +1034,7 @@ def main(ck):
              'pattern with an empty row/column; distinct by (family, size, class, seed)' % SIZES)
   ck.assumptions = ['sparse inputs have sorted, duplicate-free column indices (the documented CSR convention of the engine)',
                     'mju_boxQP / QCQP are judged on moderately scaled SPD problems (the routines use absolute thresholds 1e-10..1e-16)',
-                    'mju_eig3 accuracy is judged against its own stopping rules (off-diagonal < 1e-12 absolute, or rotation cosine > 1 - 1e-12 which leaves up to 1.4e-6 rad): reconstruction within 8e-6 |A|, eigenvalues within 1e-10 |A|',
+                    'mju_eig3 accuracy is judged against its own stopping rules (off-diagonal < 1e-12 absolute, or rotation cosine > 1 - 1e-12 which leaves up to 1.4e-6 rad): reconstruction within 2e-5 |A|, eigenvalues within 1e-10 |A|',
                     'mju_cholSolveSparse and mju_QCQP (n>3) are exported but not MJAPI: called through the unguarded symbol']
   fams = ['blas'] * 4 + ['sparse'] * 4 + ['symsparse'] * 3 + ['chol'] * 2 + ['lu'] * 2 + ['band'] * 3 + ['eig3'] * 2 + ['boxqp'] * 3 + ['qcqp'] * 2
 
